@@ -5,6 +5,7 @@
 
       lexDocument (nodes.flatMap (render node ++ LF)) = (tokens of the nodes, re-positioned; no error)
 -/
+import XotModel.Lemmas.LexReadAs
 import XotModel.Lemmas.LexRejectShapes
 import XotModel.Lemmas.SerOptResp
 import XotModel.Lemmas.LexDecl
@@ -189,10 +190,9 @@ theorem lexLoop_lines : ∀ (ks : List NSNode) (ctx : LexCtx) (tk : Tokenizer) (
     (NSNode.tokens.tokensList ks).all Token.lexOK = true →
     lexNest false ctx (NSNode.tokens.tokensList ks) = true →
     tk.stream.rest = renderLines ks →
-    ∃ ts', lexLoop tk position = (ts', none) ∧
-      ts'.map Token.erase = (NSNode.tokens.tokensList ks).map Token.erase
+    ∃ ts', lexLoop tk position = (ts', none) ∧ ReadAsList ts' (NSNode.tokens.tokensList ks)
   | [], ctx, tk, position, _, _, _, _, _, hs => by
-    refine ⟨[], ?_, rfl⟩
+    refine ⟨[], ?_, ReadAsList.nil⟩
     exact lexLoop_end position (by simp [atEnd, hs, renderLines])
   | k :: ks, ctx, tk, position, hctx, hm, hk, hok, hn, hs => by
     simp only [NSNode.tokens.tokensList, List.all_append, Bool.and_eq_true] at hok hn
@@ -212,7 +212,7 @@ theorem lexLoop_lines : ∀ (ks : List NSNode) (ctx : LexCtx) (tk : Tokenizer) (
       (fun k' hk' => hk k' (by simp [hk'])) hok.2 (lexNest_append_right _ _ ctx hn) (by rw [hst2])
     refine ⟨placeTokens tk.stream.pos k.tokens ++ ts2, ?_, ?_⟩
     · rw [hl1, hl2, hl3]
-    · simp only [NSNode.tokens.tokensList, List.map_append, placeTokens_erase, he3]
+    · exact ReadAsList.append (placeTokens_readAs _ _) he3
 
 end XotModel.Lex.Canon
 
@@ -223,8 +223,7 @@ open XotModel.Lex XotModel.Lex.Canon
     to byte positions; the line feeds are not tokens. -/
 theorem lexDocument_lines (ks : List NSNode) (hk : ∀ k ∈ ks, k.isChars = false)
     (h : LexOK false (NSNode.tokens.tokensList ks) = true) :
-    ∃ ts', lexDocument (renderLines ks) = (ts', none) ∧
-      ts'.map Token.erase = (NSNode.tokens.tokensList ks).map Token.erase := by
+    ∃ ts', lexDocument (renderLines ks) = (ts', none) ∧ ReadAsList ts' (NSNode.tokens.tokensList ks) := by
   simp only [LexOK, Bool.and_eq_true] at h
   have hb : ((Stream.ofStr (renderLines ks)).curr? == some '\uFEFF') = false := by
     cases ks with
@@ -245,7 +244,7 @@ theorem lexDocument_declaration_lines (d : Declaration) (ks : List NSNode) (hk :
     (henc : ∀ e, d.encoding = some e → e.all encChar = true) :
     ∃ v e sa sp ts', lexDocument (d.bytes ++ renderLines ks) =
         (.declaration ⟨['1', '.', '0'], v⟩ e sa sp :: ts', none) ∧
-      ts'.map Token.erase = (NSNode.tokens.tokensList ks).map Token.erase := by
+      ReadAsList ts' (NSNode.tokens.tokensList ks) := by
   simp only [LexOK, Bool.and_eq_true] at h
   obtain ⟨v, e, sa, sp, q, hl⟩ := lexDocument_declaration_then d (renderLines ks) henc
   obtain ⟨tk', hm', hst', hl'⟩ := lexLoop_skip_nl .prolog (.inl rfl)
